@@ -117,6 +117,8 @@ ATOMS = [".", ".", ".[]", ".[]?", ".a", ".a?", ".[0]", "1", '"x"', "null", "fals
 
 def gen_query(r):
     k = r.random()
+    if k < 0.03:
+        return r.choice(PARSE_ERR_QUERIES + COMPILE_ERR_QUERIES)
     if k < 0.12:
         return jqgen.program(r, r.choice([2, 3]))
     a = r.choice(ATOMS)
@@ -385,7 +387,7 @@ def run(tier, seed, replay):
         rep.cov["exhaustive"] = True
         # 2. model -> code: scenarios enumerated / sampled by TLC, scripted into the real binary
         if quick:
-            scs, res = tlc_generate(work, seed, "sample", na=700, nb=900, nr=900)
+            scs, res = tlc_generate(work, seed, "sample", na=1000, nb=1200, nr=1200)
         else:
             scs, res = tlc_generate(work, seed, "all", timeout=1500)
             more, res2 = tlc_generate(work, seed, "sample", na=0, nb=0, nr=12000, timeout=1500)
@@ -402,7 +404,7 @@ def run(tier, seed, replay):
         # 3. code -> model: generated queries x streams x TLC-generated command lines, library vs binary
         pool = [sc["args"] for fam, sc in scs if fam in ("R", "F")] or [[{"k": "pos"}]]
         canon = [sc["args"] for fam, sc in scs if fam == "A"]
-        nlib = 1500 if quick else 25000
+        nlib = 2200 if quick else 25000
         for _ in range(nlib):
             args = r.choice(pool) if (r.random() < 0.6 or not canon) else r.choice(canon)
             c = lib_case(args, r)
